@@ -290,7 +290,27 @@ func c08hClass(err error) string {
 }
 
 // op[0]: p = Parse, pp = ParsePath, pf = ParseForm, ph = ParseHeaders, pj = ParseJsonBody
+type c08hErrBody struct{}
+
+func (c08hErrBody) Read(p []byte) (int, error) { return 0, fmt.Errorf("c08: the body fails") }
+func (c08hErrBody) Close() error                { return nil }
+
+func c08hNilTargetSafe() (safe bool) {
+	defer func() {
+		if recover() != nil {
+			safe = false
+		}
+	}()
+	_ = ParseJsonBody(httptest.NewRequest(http.MethodGet, "/c08", http.NoBody), nil)
+	return true
+}
+
 func c08hExec(op []string) string {
+	kind := ""
+	if len(op) > 2 && op[0] == "pe" && strings.HasPrefix(op[1], "kind=") {
+		kind = op[1][5:]
+		op = append([]string{"p"}, op[2:]...)
+	}
 	if len(op) < 10 || op[1] != "T" {
 		return "bad-op"
 	}
@@ -347,6 +367,26 @@ func c08hExec(op []string) string {
 	} else {
 		var sb strings.Builder
 		p.parseInput(&sb)
+		if kind == "overcap" || kind == "undercap" {
+			// a member nobody declares, long enough to push the text over (just under) the 8 MB cap of ParseJsonBody
+			txt := strings.TrimSpace(sb.String())
+			if !strings.HasSuffix(txt, "}") {
+				return "bad-op"
+			}
+			n := 8<<20 - len(txt) - 64
+			if kind == "overcap" {
+				n = 8<<20 + 64
+			}
+			sep := ","
+			if strings.TrimSpace(txt[1:len(txt)-1]) == "" {
+				sep = ""
+			}
+			sb.Reset()
+			sb.WriteString(txt[:len(txt)-1] + sep + `"zzpad":"` + strings.Repeat("x", n) + `"}`)
+			if kind == "overcap" {
+				kind = "undercap"
+			}
+		}
 		r = httptest.NewRequest(http.MethodPost, target, strings.NewReader(sb.String()))
 		r.Header.Set("Content-Type", "application/json")
 	}
@@ -370,7 +410,36 @@ func c08hExec(op []string) string {
 	}
 	r = pathvar.WithVars(r, pvars)
 	v := reflect.New(ty)
-	if err := fn(r, v.Interface()); err != nil {
+	var tgt any = v.Interface()
+	switch kind {
+	case "", "undercap":
+	case "chunked":
+		r.ContentLength = -1
+	case "wrongct":
+		r.Header.Set("Content-Type", "text/plain")
+	case "noct":
+		r.Header.Del("Content-Type")
+	case "nobody":
+		r.Body = http.NoBody
+		r.ContentLength = 10
+		r.Header.Set("Content-Type", "application/json")
+	case "readerr":
+		r.Body = c08hErrBody{}
+		r.ContentLength = 10
+		r.Header.Set("Content-Type", "application/json")
+	case "tgt-nil":
+		tgt = nil
+	case "tgt-val":
+		tgt = v.Elem().Interface()
+	case "tgt-nilptr":
+		tgt = reflect.Zero(v.Type()).Interface()
+	case "tgt-ptrint":
+		i := 0
+		tgt = &i
+	default:
+		return "bad-op"
+	}
+	if err := fn(r, tgt); err != nil {
 		return "err " + c08hClass(err)
 	}
 	var out strings.Builder
@@ -866,6 +935,23 @@ func c08hGen(r *verifh.Rng) []verifh.Section {
 			for j := 0; j < ninputs; j++ {
 				ops = append(ops, c08hGenOp(r, fs))
 			}
+		}
+		// requests as they arrive: the body not looked at / failing / over the cap, invalid targets
+		nilOK := c08hNilTargetSafe()
+		for k := verifh.Scale(8, 16); k > 0; k-- {
+			fs := c08hGenType(r)
+			o := c08hGenOp(r, fs)
+			if !strings.HasPrefix(o, "p T ") || strings.HasSuffix(o, " B none") || !strings.Contains(o, " B { ") && !strings.HasSuffix(o, " B { }") {
+				continue
+			}
+			kind := r.PickS("chunked", "wrongct", "noct", "nobody", "readerr", "tgt-nil", "tgt-val", "tgt-nilptr", "tgt-ptrint")
+			if i%8 == 0 && k == 1 {
+				kind = r.PickS("overcap", "undercap")
+			}
+			if kind == "tgt-nil" && !nilOK {
+				kind = "tgt-nilptr"
+			}
+			ops = append(ops, "pe kind="+kind+o[1:])
 		}
 		secs = append(secs, verifh.Section{Cfg: fmt.Sprintf("i=%d", i), Ops: ops})
 	}
